@@ -168,7 +168,7 @@ func ruleC13Methods(e *Env) {
 			for k := range lf.Assign {
 				if strings.HasPrefix(k, pre) && strings.HasSuffix(k, suf) {
 					buf := k[len(pre) : len(k)-len(suf)]
-					if buf == "nil" || strings.HasPrefix(buf, "slice[:0](&makeslice#") && strings.Count(buf, "(") == 1 {
+					if buf == "nil" || buf == "[]" || strings.HasPrefix(buf, "slice[:0](&makeslice#") && strings.Count(buf, "(") == 1 {
 						call = "dyn:*size.Formatter(" + buf + suf
 					}
 				}
